@@ -91,8 +91,29 @@ def useq_(draw):
   return {'kind': 'useq', 'items': items}
 
 
+@st.composite
+def mseq_(draw):
+  """Bound methods and the plain functions they wrap (obj.scale vs Cls.scale with an explicit
+  self), of a class created for this case, configured and built in a generated order."""
+  items = []
+  for _ in range(draw(st.integers(2, 6))):
+    m = draw(st.sampled_from(['scale', 'shift', 'make']))
+    how = draw(st.sampled_from(['bound', 'plain'] if m != 'make' else ['bound', 'func']))
+    if m == 'scale':
+      pos = [draw(st.integers(0, 9))]
+      kw = {'offset': draw(st.integers(0, 9))} if draw(st.booleans()) else {}
+    elif m == 'shift':
+      pos = [draw(st.integers(0, 9)) for _ in range(draw(st.integers(0, 3)))]
+      kw = {'by': draw(st.integers(0, 9))} if draw(st.booleans()) else {}
+    else:
+      pos = [draw(st.integers(0, 9))]
+      kw = {'y': draw(st.integers(0, 9))} if draw(st.booleans()) else {}
+    items.append({'m': m, 'how': how, 'pos': pos, 'kw': kw, 'k': draw(st.integers(0, 9))})
+  return {'kind': 'mseq', 'items': items}
+
+
 def strategy(tier):
-  return st.one_of(*([strategy_(tier)] * 15 + [useq_()]))
+  return st.one_of(*([strategy_(tier)] * 15 + [useq_(), mseq_()]))
 
 
 def _features(cfg):
@@ -147,10 +168,45 @@ def check_useq(case, out):
   return out
 
 
+def check_mseq(case, out):
+  from harness.vuni import things
+  out.cls('method_sequence')
+  hows = {(it['m'], it['how']) for it in case['items']}
+  out.nontrivial = any((m, 'bound') in hows and ((m, 'plain') in hows or (m, 'func') in hows) for m in ('scale', 'shift', 'make'))
+  cls = things.make_method_class()
+  for i, it in enumerate(case['items']):
+    if it['how'] == 'bound':
+      fn = getattr(cls(it['k']), it['m']) if it['m'] != 'make' else cls.make
+      pos = list(it['pos'])
+    elif it['how'] == 'plain':
+      fn = getattr(cls, it['m'])          # plain function: self is an ordinary first argument
+      pos = [f"self{it['k']}"] + list(it['pos'])
+    else:
+      fn = cls.__dict__['make'].__func__  # the function a classmethod wraps
+      pos = [cls] + list(it['pos'])
+    vuni.reset_log()
+    expected = fn(*pos, **it['kw'])
+    try:
+      cfg = fdl.Config(fn, *pos, **it['kw'])
+      view = cfg[:]
+      actual = fdl.build(cfg)
+    except Exception as e:  # pylint: disable=broad-except
+      out.add('build-raises-but-call-formable', exc_kind(e), fiddle_frame(e), 'method:' + it['how'],
+              f'item {i} {it}: {e!r}')
+      return out
+    if C.canon(expected) != C.canon(actual):
+      out.add('build-differs-from-direct-call', 'mismatch', '', 'method:' + it['how'],
+              f'item {i} {it}: expected {expected!r} actual {actual!r} view {view!r}')
+      return out
+  return out
+
+
 def check(case):
   out = Outcome()
   if case.get('kind') == 'useq':
     return check_useq(case, out)
+  if case.get('kind') == 'mseq':
+    return check_mseq(case, out)
   notes = []
   try:
     root, _ = recipes.build_recipe(case, notes)
